@@ -410,6 +410,11 @@ pub fn run(tier: &Tier) -> i32 {
         for s in set {
             work.push((k, s));
         }
+        // one more deviation of the environment: the input ends right after the last answer, which has no line
+        // terminator (it is still an answer)
+        if reads >= 1 {
+            work.push((k, Script { lines: vec!["n".to_string(); reads], deviations: 1, what: "all n; the last one without line terminator".into() }));
+        }
     }
     let prompts_checked = AtomicU64::new(0);
     let eof_runs = AtomicU64::new(0);
@@ -424,6 +429,9 @@ pub fn run(tier: &Tier) -> i32 {
         for l in sc.lines.iter() {
             raw.push_str(l);
             raw.push('\n');
+        }
+        if sc.what.ends_with("without line terminator") {
+            raw.pop();
         }
         let (rr, out, res) = cli_conformance_raw(&src, q, &p.mb, &sc.lines, &raw, interpreted, 5000, false, rep_iter);
         if rep_iter && p.has_rep {
@@ -504,7 +512,7 @@ pub fn run(tier: &Tier) -> i32 {
     }
     let mut cov = Coverage::default();
     cov.exhaustive = true;
-    cov.rule = format!("{} terminating programs (straight line with short instructions at line ends, loop, call with implied ret, REP, prints, character output, conditional jump, macro use, stack/flags, hlt in the middle, input services sharing stdin with the prompt{}) x stepping modes (-i; trap flag set by POPF before the k-th instruction and cleared before the final dump, or never cleared so that the run ends on the driver's own closing halt; INT 3 before the k-th item; INT 3 before every instruction). For each (program, mode) the default script answers every read with 'n'; ALL scripts with at most {} deviations are run (alphabet: 3 alternative advancing answers, 15 non-advancing answers incl. print commands (also with ranges ending exactly at and one past the end of memory), empty line and garbage inserted before the 'n' (possibly repeatedly at the same prompt), 4 terminating answers followed by further lines that must not be read, and the end of input at that read; the second and later deviations use a reduced alphabet; for each (program, mode) the deviation bound is the largest one whose complete script set fits the per-pair budget, see bounds). Each run's stdout is matched event by event against the reference: one prompt per executed instruction naming its line, print commands answered from the reference state without advancing, quit / end of input terminate with exit status 0 within the watchdog and below the output cap. Relational oracle on every default script: output minus prompt artefacts equals the plain run of the same program (INT 3 lines blanked / TF word replaced by 0). Every (program, mode) pair also runs once with a standard input on which every read fails (a directory) and must end without abort inside the watchdog", progs.len(), if tier.thorough { ", nested calls with REPE CMPS" } else { "" }, d);
+    cov.rule = format!("{} terminating programs (straight line with short instructions at line ends, loop, call with implied ret, REP, prints, character output, conditional jump, macro use, stack/flags, hlt in the middle, input services sharing stdin with the prompt{}) x stepping modes (-i; trap flag set by POPF before the k-th instruction and cleared before the final dump, or never cleared so that the run ends on the driver's own closing halt; INT 3 before the k-th item; INT 3 before every instruction). For each (program, mode) the default script answers every read with 'n'; ALL scripts with at most {} deviations are run (alphabet: 3 alternative advancing answers, 15 non-advancing answers incl. print commands (also with ranges ending exactly at and one past the end of memory), empty line and garbage inserted before the 'n' (possibly repeatedly at the same prompt), 4 terminating answers followed by further lines that must not be read, the end of input at that read, and - once per pair - the last answer without its line terminator; the second and later deviations use a reduced alphabet; for each (program, mode) the deviation bound is the largest one whose complete script set fits the per-pair budget, see bounds). Each run's stdout is matched event by event against the reference: one prompt per executed instruction naming its line, print commands answered from the reference state without advancing, quit / end of input terminate with exit status 0 within the watchdog and below the output cap. Relational oracle on every default script: output minus prompt artefacts equals the plain run of the same program (INT 3 lines blanked / TF word replaced by 0). Every (program, mode) pair also runs once with a standard input on which every read fails (a directory) and must end without abort inside the watchdog", progs.len(), if tier.thorough { ", nested calls with REPE CMPS" } else { "" }, d);
     cov.bounds = json!({"programs": progs.len(), "program_mode_pairs": pm.len(), "scripts": work.len(), "max_deviations": d, "program_mode_pairs_explored_completely_to_0_1_2_3_deviations": depth_hist, "prompts_checked": prompts_checked.load(Ordering::Relaxed), "runs_ending_in_end_of_input": eof_runs.load(Ordering::Relaxed), "runs_ending_in_quit": quit_runs.load(Ordering::Relaxed), "relational_pairs": relational.load(Ordering::Relaxed), "runs_with_unreadable_stdin": unreadable.load(Ordering::Relaxed), "binary_prompts_before_every_rep_iteration": rep_iter, "runs_of_programs_with_rep": rep_iter_mode.load(Ordering::Relaxed), "reads_per_pair_min_max": [reads_of.iter().min(), reads_of.iter().max()], "tier": tier.name()});
     cov.assumptions = common_assumptions();
     cov.assumptions.push("single-stepping a REP-prefixed instruction may show one prompt for the instruction or one prompt before every iteration (the 8086 trap flag traps after every iteration); both are accepted".into());
